@@ -138,6 +138,8 @@ PROPS = {
                 "minimal build's constant-time Tonelli-Shanks gets the same inputs.",
         "note": "trusted: BigUint Euler criterion; the sign of y is free and never compared.",
         "monitor_profile": [("ark", "C09")],
+        # thorough: Miri over the racing first use of the lazily built tables (3 threads per shard)
+        "miri": [("ark", "lazy", 16, 6), ("min", "curve", 4, 2)],
     },
     "C10": {
         "builds": ["ark", "min"], "level": "exploration", "design_ref": "DESIGN.md §3 C10",
@@ -165,6 +167,8 @@ PROPS = {
                 "Trivial: values 0/1, the empty string." + DISTINCT,
         "text": "Integer-model monitor over all conversions; the minimal build covers the inherent subset on the fiat backend.",
         "note": "FromStr is specified as digits -> integer mod p, anything else Err (ark-ff behaviour); Display of zero may be empty.",
+        # thorough: Miri over the one `unsafe` of the crate (from_utf8_unchecked in the Debug impls)
+        "miri": [("ark", "debug", 8, 0), ("min", "debug", 8, 0)],
     },
     "C12": {
         "builds": ["ark", "min"], "level": "exploration", "design_ref": "DESIGN.md §3 C12",
